@@ -799,8 +799,11 @@ class _PerAxisInterpolator(_Interpolator):
 
         if out is None:
             out_shape = out_shape_from_meshgrid(norm_distances)
-            # Weighted sums of non-floating values are floating point
-            out_dtype = np.result_type(self.values.dtype, np.float16)
+            if np.issubdtype(self.values.dtype, np.inexact):
+                out_dtype = self.values.dtype
+            else:
+                # Weighted sums of non-floating values are floating point
+                out_dtype = np.dtype(float)
             out = np.zeros(out_shape, dtype=out_dtype)
         else:
             out[:] = 0.0
